@@ -3,13 +3,6 @@ import os
 
 _ROOT = os.path.dirname(os.path.dirname(os.path.dirname(os.path.abspath(__file__))))
 
-EXTRACT = {
-    # Rust core's `char::is_alphabetic` / `char::is_numeric` as flattened scalar ranges, dumped by
-    # the hook binary built from the current tree (`svharness tables`).
-    "tables": ["UNICODE_ALPHABETIC_RANGES", "UNICODE_NUMERIC_RANGES"],
-}
-
-
 def _c28_nontrivial(req, out):
     t = req.split(" ")
     return len(t) > 2 and len(t[2]) >= 4
@@ -18,12 +11,12 @@ def _c28_nontrivial(req, out):
 CFG = {
     "level": "proof",
     "level_text": "Lean 4 theorems for the path/lexing layer: lex_roundtrip (escape_jq_string is read back by the jq string lexer for every key, "
-                  "no side condition), dot_notation_sound_partial (ASCII keys; the unconditional statement is refuted: finding F11), "
+                  "no side condition), dot_notation_sound (full, over the repaired can_use_dot_notation; findings C28-F1/F2 fixed), "
                   "path_expr_sound (the rendered expression parses to the index chain and evaluates, in the jq model, to the sub-value the "
-                  "path denotes, for every tree/path; dot components must be jq identifiers, indices fit i64), range_eq_partial; node "
-                  "selection, byte range, type, at_offset/at_position and the crate's own jq are tied by correspondence.",
-    "level_note": "Trusts the jq model (Model/JqParse, Model/Jq: jq 1.7.1 grammar) as the meaning of `a jq expression`, Rust core's Unicode "
-                  "tables (regenerated each run), the reference semi-index builder (C05) and BP/rank/select specs (C04, C07) under the BP-level "
+                  "path denotes, for every tree/path; dot components must be jq identifiers, indices fit i64), find_node_at_offset_eq / located_start_eq (node selection and range start on the real index of "
+                  "every valid document, composing C05/C06/C07), range_eq_partial; the parent walk of path_to_bp over BP, the range end, "
+                  "at_position (line index) and the crate's own jq are tied by correspondence.",
+    "level_note": "Trusts the jq model (Model/JqParse, Model/Jq: jq 1.7.1 grammar) as the meaning of `a jq expression`, the reference semi-index builder (C05) and BP/rank/select specs (C04, C07) under the BP-level "
                   "model, which the driver cross-checks against the node-table model on every request.",
     "technique": "Lean 4 model of path reconstruction / expression rendering + jq model evaluation; differential correspondence",
     "variants": [{"features": [], "env": {"SV_CLI": os.path.join(_ROOT, ".build", "target-cli", "release", "succinctly")}}],
@@ -31,10 +24,11 @@ CFG = {
     "lean_modules": ["SuccinctlyVerif.Props.C28"],
     "lean_files": ["SuccinctlyVerif/Model/JsonLocate.lean", "SuccinctlyVerif/Model/JsonLocateBp.lean",
                    "SuccinctlyVerif/Proof/JsonLocate.lean", "SuccinctlyVerif/Proof/JsonLocateLex.lean",
-                   "SuccinctlyVerif/Proof/JsonLocatePath.lean", "SuccinctlyVerif/Props/C28.lean"],
-    "required_theorems": ["SV.Props.C28.lex_roundtrip", "SV.Props.C28.dot_notation_sound_partial",
-                          "SV.Props.C28.path_expr_sound", "SV.Props.C28.dot_notation_unsound_non_ascii"],
-    "generated": ["C28:"],
+                   "SuccinctlyVerif/Proof/JsonLocatePath.lean", "SuccinctlyVerif/Proof/JsonLocateIndex.lean",
+                   "SuccinctlyVerif/Props/C28.lean"],
+    "required_theorems": ["SV.Props.C28.lex_roundtrip", "SV.Props.C28.dot_notation_sound",
+                          "SV.Props.C28.path_expr_sound", "SV.Props.C28.ofKey_dotOK"],
+    "generated": [],
     "nontrivial": _c28_nontrivial,
     "rule": "request = one document (all its byte offsets) or one key; distinct request lines with at least 2 bytes of payload",
     "explanation": "per generated duplicate-free document: every byte offset (expression, byte range, type, at_offset, at_position vs an "
